@@ -1173,3 +1173,104 @@ fn apply_node_event(s: &mut Sim, label: &str, cfg: &crate::engine_w::WCfg) -> Re
     let _ = cfg;
     Err(format!("unknown node event {}", label))
 }
+
+// ------------------------------------------------------------------ malformed payloads through the real binary (C06)
+
+/// Malformed onion payloads handed to the real binary through its real stdin: every call is answered (with a
+/// result or a JSON-RPC error) and the process keeps serving afterwards.
+pub fn malformed(_thorough: bool, _threads: usize, name: &'static str) -> JobResult {
+    let mut result = JobResult {
+        name: name.to_string(),
+        engine: "E".into(),
+        level_completed: 0,
+        exhaustive: true,
+        ..Default::default()
+    };
+    if !Path::new(&binary()).exists() {
+        result.error = Some(format!("{} not built", binary()));
+        return result;
+    }
+    let mut payloads: Vec<String> = vec!["".into(), "00".into(), "fd".into(), "fe".into(), "ff".into(), "01fd".into(), "02fd00".into(), "03fe0000".into(), "zz".into(), "0".into()];
+    for s in crate::engine_i::structured_streams().into_iter().filter(|s| s.len() < 40).take(120) {
+        payloads.push(hex::encode(s));
+    }
+    let mut p = match Proc::start(false) {
+        Ok(p) => p,
+        Err(e) => {
+            result.error = Some(e);
+            return result;
+        }
+    };
+    match p.handshake(&json!({})) {
+        Ok(true) => {}
+        other => {
+            result.error = Some(format!("handshake: {:?}", other));
+            return result;
+        }
+    }
+    let mut answered = 0u64;
+    for (i, pl) in payloads.iter().enumerate() {
+        p.next_id += 1;
+        let id = json!(p.next_id);
+        let req = json!({"jsonrpc":"2.0","id":id,"method":"htlc_accepted","params":{
+            "onion": {"payload": pl, "type": "tlv", "shared_secret": "00", "forward_msat": 1, "total_msat": 1},
+            "htlc": {"short_channel_id": "1x2x3", "id": i, "amount_msat": 1, "cltv_expiry": 800100, "cltv_expiry_relative": 100, "payment_hash": "07".repeat(32)},
+        }});
+        p.send(&req);
+        result.evaluations += 1;
+        match p.wait_reply(&id, Duration::from_secs(10)) {
+            Some(r) => {
+                if r.get("result").is_some() || r.get("error").is_some() {
+                    answered += 1;
+                } else {
+                    result.found.push(FoundAny {
+                        violation: Violation {
+                            property: "C06",
+                            clause: "well-formed-response",
+                            shape: "the real binary answered a malformed request with neither a result nor an error".into(),
+                            detail: format!("payload {} reply {}", pl, r),
+                        },
+                        cost: 0,
+                        replay: json!({"engine":"E","scenario":name,"payload":pl}),
+                    });
+                }
+            }
+            None => {
+                let dead = p.exited(Duration::from_millis(200)).is_some();
+                result.found.push(FoundAny {
+                    violation: Violation {
+                        property: "C06",
+                        clause: "answered",
+                        shape: if dead { "the real binary died on a malformed onion payload".into() } else { "the real binary never answered a call with a malformed onion payload".into() },
+                        detail: format!("payload {:?}; stderr: {}", pl, p.stderr_tail.lock().unwrap().lines().last().unwrap_or("")),
+                    },
+                    cost: 0,
+                    replay: json!({"engine":"E","scenario":name,"payload":pl}),
+                });
+                break;
+            }
+        }
+    }
+    // still healthy: a normal funded trampoline HTLC is paid and settled
+    let need = 1_005_000;
+    let spec = htlc_for(&InvoiceSpec::fixed(2, 1_000_000), 9000, need, need, 800_000 + 1018);
+    let id = p.htlc(&spec);
+    match p.wait_reply(&id, Duration::from_secs(10)) {
+        Some(r) if r["result"]["result"] == "resolve" => answered += 1,
+        other => result.found.push(FoundAny {
+            violation: Violation {
+                property: "C06",
+                clause: "answered",
+                shape: "after malformed requests the real binary no longer serves a normal payment".into(),
+                detail: format!("{:?}", other),
+            },
+            cost: 0,
+            replay: json!({"engine":"E","scenario":name}),
+        }),
+    }
+    result.nontrivial = answered;
+    result.extra.insert("calls_answered_by_binary".into(), json!(answered));
+    result.rule = Some(format!("{} htlc_accepted calls with malformed / truncated onion payload hex (empty, lone varint markers, odd-length and non-hex strings, the short structured truncations of C18) sent to the real binary over its real stdin; each must be answered with a result or a JSON-RPC error, the process must stay alive and then pay a normal trampoline HTLC", payloads.len()));
+    result.samples = vec![json!({"payloads": payloads.iter().take(12).collect::<Vec<_>>()})];
+    result
+}
